@@ -8,6 +8,7 @@
 #include <aws/common/assert.h>
 #include <aws/common/macros.h>
 #include <aws/common/mutex.h>
+#include <aws/common/zero.h>
 
 /*
  * Small Block Allocator
@@ -368,8 +369,10 @@ static void s_sba_free_to_bin(struct sba_bin *bin, void *addr) {
                 break;
             }
         }
-        /* ensure that the page tag is erased, in case nearby memory is re-used */
-        page->tag = page->tag2 = 0;
+        /* ensure that the page tag is erased, in case nearby memory is re-used. Plain stores right before
+         * free() are dead stores to the compiler and get removed, so erase it in a way that survives */
+        aws_secure_zero(&page->tag, sizeof(page->tag));
+        aws_secure_zero(&page->tag2, sizeof(page->tag2));
         s_aligned_free(page);
         return;
     }
